@@ -726,6 +726,11 @@ def diff_flags(a, b, flags=None):
     def kind(c):
         if isinstance(c, tuple) and len(c) == 2 and c[0] == "Expr" and isinstance(c[1], tuple):
             c = dict(c[1]).get("value")          # an expression statement is what its value is
+        if isinstance(c, tuple) and len(c) == 2 and c[0] == "BoolOp" and isinstance(c[1], tuple):
+            vals = dict(c[1]).get("values") or ()
+            return "subproc" if any(kind(v) == "subproc" for v in vals) else None
+        if isinstance(c, tuple) and len(c) == 2 and c[0] == "UnaryOp" and isinstance(c[1], tuple):
+            return kind(dict(c[1]).get("operand"))
         h = _helper_name(c) if isinstance(c, tuple) and c else None
         if h == "subproc_check_boolop":
             # only a wrapper around the statement's value: look at what it wraps
